@@ -92,9 +92,20 @@ def _dg_post(vc, v):
     vc.stash("dg.after", v["data"])
 
 
+def _dg_modifies(vc, v):
+    """the messages of one datagram are handled by message_received, which may change the
+    receiver's state; where a harness runs the real SD handler, that state (the session
+    table of received ids) is completely arbitrary when the loop is reached and its
+    representation invariant is checked on every write, so the state before an arbitrary
+    iteration is among the states the harness starts from"""
+    st = getattr(v["self"], "session_storage", None)
+    return [st.incoming] if st is not None else []
+
+
 LOOPS = {
     ("someip.sd.SOMEIPDatagramProtocol.datagram_received", 0): {
         "havoc": {"data": _dg_gen_data},
+        "modifies": _dg_modifies,
         "variant": _dg_variant,
         "head": _dg_head,
         "post": _dg_post,
